@@ -608,6 +608,7 @@ class ClientSession:
 
         timer = tm.timer()
         req: ClientRequest | None = None
+        resp: ClientResponse | None = None
         try:
             with timer:
                 # https://www.rfc-editor.org/rfc/rfc9112.html#name-retrying-requests
@@ -920,6 +921,10 @@ class ClientSession:
             if handle:
                 handle.cancel()
                 handle = None
+
+            if resp is not None:
+                # The caller never gets the response, so it cannot close it
+                resp.close()
 
             if req is not None and req._body is not None:
                 await req._body.close()
